@@ -18,8 +18,11 @@ MANIFEST = dict(
          "symbolic execution turns each into a loop tree with, per loop, the entry values and one-pass state transformer of the variables it "
          "carries, its condition and its element stores (named temporaries substituted, file-static helpers executed in line, pointers that "
          "step through one array kept as offsets, loop counters re-based to 1 and variables stepped by a constant replaced by their closed form, "
-         "integer division and integer `<` modelled as such); "
-         "(3) the normal form conforms to the textbook definitions: initial guess cos(pi (i-1/4)/(n+1/2)), Legendre recurrence, derivative "
+         "integer division and integer `<` modelled as such; the output arrays named by their role -- data of the array objects returned as tuple "
+         "items 0 / 1, or the library's array parameters; pointer parameters of helpers followed to the caller's array; consecutive counted loops "
+         "over one range run as one loop when an affine dependence test shows that no pass is overtaken; file-scope constants read as their "
+         "value); the two normal forms agree when some one-to-one renaming of their loop-carried variables makes them equal; "
+         "(3) the normal form conforms to the textbook definitions (roles assigned to variables by the loops that carry them, not by name): initial guess cos(pi (i-1/4)/(n+1/2)), Legendre recurrence, derivative "
          "identity, Newton step, mirrored fill (index sum n-1), weight 2 xl/((1-z^2) P'^2), tolerance <= 1e-10; (4) the Python wrapper rejects "
          "npts <= 0 before the call and the parse format matches; (5) memo-key discipline of the integrator object: cached tables and their key "
          "are stored under equivalent path conditions, the recompute guard is equivalent to 'a count is requested and differs from the cached key', "
@@ -29,7 +32,8 @@ MANIFEST = dict(
          "data flow over reaching definitions) is re-bound in every call before it is read, or written by setup whenever the tables are, or "
          "reused only under a comparison with the cached count / stored under a key that contains it; (6) integrator formulas (affine map "
          "of the abscissae, weighted sum, prefactor, roles of the interpolation call) by symbolic normal forms; (7) symbolic shape and element "
-         "inference of the tensor-product grid for nx != ny (which weight sits at which grid point); (8) value preservation on the data path: "
+         "inference of the tensor-product grid for nx != ny (which weight sits at which grid point) and of the element the two-dimensional integrator "
+         "sums (weights wx[p] wy[q], integrand at both mapped abscissae, prefactor), wherever the affine maps are applied; (8) value preservation on the data path: "
          "reaching definitions follow each input of the linear interpolation through array conversions to the segment search and the formula, "
          "and every conversion there and in the integrators (which the symbolic evaluator reads as the identity) must be value preserving "
          "for every input dtype (no narrowing, no rounding, no dtype borrowed from another array); every index used to look up the abscissa "
@@ -50,6 +54,10 @@ SEMANTIC = ('R17.1', 'R17.2', 'R17.3', 'R17.5', 'R17.5r', 'R17.7', 'R17.8')
 
 def run(chk):
     repo = PyRepo()
+    # for the rules that follow values through one function body (R17.6 formulas, R17.8 data paths): helpers the reviewed baseline
+    # does not have are folded back into their callers first (vcheck.inline: done only when that is semantics preserving), so that
+    # a value is followed through an extracted helper.  The other rules follow calls themselves and look at the code as written.
+    folded = PyRepo(inline=True)
     chk.set_templates(repo, semantic=SEMANTIC)
     chk.explanation = MANIFEST["text"]
     chk.trusted = ["clang 14 AST", "sympy normaliser", "numpy meshgrid/broadcast semantics (as modelled)"]
@@ -69,8 +77,14 @@ def run(chk):
         zero_trip(chk, name, fn, where, helpers)
         # the three inputs: the variables PyArg_ParseTuple fills (extension) / the first three parameters (library)
         inputs = (parse_tuple_binding(fn)[1] if tu == "cgauleg" else cfront.params_of(fn))[:3]
+        # the two outputs: the data of the array objects returned as (abscissae, weights) (extension) / parameters four and five (library)
+        if tu == "cgauleg":
+            objs = _returned_items(fn)
+            arrays = {"DATA(%s)" % o: r for o, r in zip(objs, ("x", "w"))} if objs and len(objs) == 2 else {}
+        else:
+            arrays = dict(zip(cfront.params_of(fn)[3:5], ("x", "w")))
         try:
-            nf[name] = _normal_form(fn, helpers, inputs)
+            nf[name] = _normal_form(fn, helpers, inputs, arrays, tu)
         except _NotModelled as e:
             nf[name] = None
             chk.notes["not_modelled_" + name] = str(e)
@@ -80,9 +94,9 @@ def run(chk):
     memo(chk, repo)
     derived_state(chk, repo)
     cached_tables_readonly(chk, repo)
-    integrators(chk, repo)
-    value_preservation(chk, repo)
-    shapes(chk, repo)
+    ts = shapes(chk, repo)
+    integrators(chk, folded, ts)
+    value_preservation(chk, folded)
 
 
 # ---------------------------------------------------------------------------
@@ -334,6 +348,8 @@ class _Loop:
         self.out = {}             # their values at the end of one pass, in terms of the values at its top (Symbol(v))
         self.stores = []          # (array, index, value, line) element stores made directly in the body
         self.children = []
+        self.counter = None       # the variable that counts its passes from 1 (set by _canon_loops)
+        self.live_in = set()      # variables whose value at the top of a pass may be read before the pass assigns them
 
     def walk(self):
         yield self
@@ -380,11 +396,28 @@ def _null_ptr(n):
     return s.get("kind") in ("GNUNullExpr", "CXXNullPtrLiteralExpr") or (s.get("kind") == "IntegerLiteral" and str(s.get("value")) == "0")
 
 
+_DATA_CALLS = ("PyArray_DATA", "PyArray_BYTES")
+
+
+def _data_of(n):
+    """name of the variable obj when the expression is the data pointer of the array object it holds: (T *) PyArray_DATA(obj)"""
+    s = n
+    while isinstance(s, dict) and s.get("kind") in ("ImplicitCastExpr", "ParenExpr", "CStyleCastExpr", "ConstantExpr") and s.get("inner"):
+        s = s["inner"][-1]
+    if isinstance(s, dict) and s.get("kind") == "CallExpr" and cfront.callee_name(s) in _DATA_CALLS and len(cfront.call_args(s)) == 1:
+        a = cfront.strip(cfront.call_args(s)[0])
+        if a.get("kind") == "DeclRefExpr" and a.get("referencedDecl", {}).get("kind") in ("VarDecl", "ParmVarDecl"):
+            return a["referencedDecl"]["name"]
+    return None
+
+
 def _ptr_root(n):
-    """the pointer variable an address expression is computed from: v, v + k, k + v, v - k, &v[k], &*v (None: not of that form;
-    "NULL" for a null pointer constant)"""
+    """the pointer variable an address expression is computed from: v, v + k, k + v, v - k, &v[k], &*v; "DATA(obj)" for the data
+    pointer of the array object held by obj (None: not of that form; "NULL" for a null pointer constant)"""
     if _null_ptr(n):
         return "NULL"
+    if _data_of(n) is not None:
+        return "DATA(%s)" % _data_of(n)
     s = n
     while isinstance(s, dict) and s.get("kind") in ("ImplicitCastExpr", "ParenExpr", "CStyleCastExpr", "ConstantExpr") and s.get("inner"):
         s = s["inner"][-1]
@@ -463,10 +496,57 @@ def _cursors(fn):
         for v, b in list(out.items()):
             if b in out and out[b] != v:
                 out[v] = out[b]
-    # the array itself is fixed: a parameter that is never assigned, or a local that is given its value once
-    out = {v: b for v, b in out.items() if b not in out and len([r for r in roots.get(b, []) if r != "NULL"]) <= (0 if b in params else 1)}
+    # the array itself is fixed: a parameter that is never assigned, or a local that is given its value once (for the data of an
+    # array object: the variable that holds the object)
+    def holder(b):
+        return b[5:-1] if b.startswith("DATA(") else b
+    out = {v: b for v, b in out.items() if b not in out and holder(b) not in taken
+           and len([r for r in roots.get(holder(b), []) if r != "NULL"]) <= (0 if holder(b) in params else 1)}
     _cursor_cache[key] = out
     return out
+
+
+_locals_cache = {}
+_const_cache = {}
+
+
+def _file_constant(tu, name):
+    """value of a const-qualified arithmetic variable defined at file scope with a constant initialiser (`static const double EPS =
+    4.e-11;`): such a name is another spelling of the number.  None when it is not that."""
+    import os
+    import re
+    from vcheck import core
+    key = (tu, name)
+    if key in _const_cache:
+        return _const_cache[key]
+    _const_cache[key] = None
+    if tu is None or tu not in cfront.TUS:
+        return None
+    try:
+        src = open(os.path.join(core.REPO, cfront.TUS[tu]["path"]), encoding="utf-8", errors="replace").read()
+    except OSError:
+        return None
+    if not re.search(r"^[^\n(){};]*\bconst\b[^\n(){};]*\b%s\s*=" % re.escape(name), src, re.M):
+        return None
+    if cfront.TUS[tu].get("filt"):
+        k2 = "%s@%s" % (tu, name)
+        cfront.TUS.setdefault(k2, dict(path=cfront.TUS[tu]["path"], cxx=cfront.TUS[tu]["cxx"], filt=name, inc=list(cfront.TUS[tu]["inc"])))
+        decls = cfront.load_tu(k2)
+    else:
+        decls = cfront.load_tu(tu)
+    hits = [d for d in decls if d.get("kind") == "VarDecl" and d.get("name") == name]
+    if len(hits) != 1 or "const" not in _qual(hits[0]).split() or _is_ptr_type(_qual(hits[0])):
+        return None
+    init = [c for c in hits[0].get("inner", []) if isinstance(c, dict) and c.get("kind")]
+    if not init:
+        return None
+    try:
+        v = csymx.Lower({"inner": []}).expr(init[-1])
+    except (csymx.CUnsupported, KeyError, TypeError, ValueError, IndexError):
+        return None
+    if isinstance(v, sp.Basic) and v.is_number:
+        _const_cache[key] = v
+    return _const_cache[key]
 
 
 class _CLower(csymx.Lower):
@@ -488,6 +568,13 @@ class _CLower(csymx.Lower):
             if plain in ex.curs[-1]:
                 base, off = ex.ptr_expr(n)
                 return sp.Function("PTR")(sp.Symbol(base), off)
+            if ex.access is not None:
+                ex.access.append(("rs", nm, None))
+            ex.note_read(nm)
+            if nm not in ex.env and n["referencedDecl"].get("kind") == "VarDecl" and "const" in _qual(n["referencedDecl"]).split() and not ex.is_local(plain):
+                c = _file_constant(ex.tu, plain)
+                if c is not None:
+                    return c
             return ex.env.get(nm, sp.Symbol(nm))
         if k == "ArraySubscriptExpr" or (k == "UnaryOperator" and n.get("opcode") == "*" and not (
                 _deref_param(n) is not None and ex.name(_deref_param(n)) in ex.alias[-1])):
@@ -496,9 +583,12 @@ class _CLower(csymx.Lower):
             if loc is None:
                 raise csymx.CUnsupported("subscript of a non-variable" if k == "ArraySubscriptExpr" else "dereference")
             bname, idx = loc
+            if ex.access is not None:
+                ex.access.append(("r", bname, idx))
             return ex.env.get(("elem", bname, idx), sp.Function(bname)(idx))
         if k == "UnaryOperator" and n.get("opcode") == "*":
             v = ex.alias[-1][ex.name(_deref_param(n))]
+            ex.note_read(v)
             return ex.env.get(v, sp.Symbol(v))
         if k == "BinaryOperator" and n.get("opcode") in ("<", ">", "<=", ">=", "==", "!=") and len(inner) == 2 and all(_is_ptr_type(_qual(x)) for x in inner):
             # two positions in the same array compare like their offsets
@@ -540,10 +630,12 @@ class _CExec:
     and its condition; helper functions with a body are executed in line (value parameters bound to the arguments, `&v` arguments
     written through).  A local pointer that only ever holds positions in one array (_cursors) is kept as its offset there, so
     `*p`, `p[k]`, `++p` are element accesses and index arithmetic.  Not modelled (-> _NotModelled): break/continue, return inside
-    a loop of the same function, element stores or loops under an if, backward goto, pointers stepped without a fixed array."""
+    a loop of the same function, element stores or loops under an if, backward goto, pointers stepped without a fixed array.
+    A label of the top level that control falls into (common exit) forgets what is known about the variables."""
 
-    def __init__(self, fn, helpers):
+    def __init__(self, fn, helpers, tu=None):
         self.fn = fn
+        self.tu = tu
         self.helpers = helpers
         self.env = {p: sp.Symbol(p) for p in cfront.params_of(fn)}
         self.scope = [{}]
@@ -559,6 +651,10 @@ class _CExec:
         self.ret_base = 1
         self.lower = _CLower(self)
         self.retval = None
+        self.labels = set()
+        self.frames = [fn]
+        self.access = None
+        self.fresh = []
         body = cfront.body_of(fn)
         self.block(body.get("inner", []) or [], toplevel=True)
 
@@ -566,8 +662,25 @@ class _CExec:
     def name(self, n):
         return self.scope[-1].get(n, n)
 
+    def note_read(self, nm):
+        """the variable is read: in every open loop whose pass has not certainly assigned it yet, its value at the top of the pass is used"""
+        for e in self.fresh:
+            if nm in e["names"]:
+                e["loop"].live_in.add(nm)
+
+    def is_local(self, plain):
+        """is the name declared (parameter or local) in the function / helper being executed"""
+        f = self.frames[-1]
+        key = id(f)
+        if key not in _locals_cache:
+            _locals_cache[key] = set(cfront.params_of(f)) | {x.get("name") for x in cfront.walk(cfront.body_of(f) or {}) if x.get("kind") == "VarDecl"}
+        return plain in _locals_cache[key]
+
     def assign(self, nm, v):
         self.env[nm] = v
+        for e in self.fresh:
+            if not e["susp"] and self.cond_depth == e["cd"]:
+                e["names"].discard(nm)          # assigned on every way through the pass: what it held at the top is gone
         for t in self.track:
             t.add(nm)
         if not self.dry:
@@ -596,13 +709,16 @@ class _CExec:
             s = s["inner"][-1]
         k = s.get("kind")
         inner = s.get("inner", []) or []
+        if _data_of(s) is not None:
+            return "DATA(%s)" % self.name(_data_of(s)), sp.Integer(0)
         if k == "DeclRefExpr" and _is_ptr_type(_qual(s)):
             plain = s["referencedDecl"]["name"]
             nm = self.name(plain)
             if nm in self.alias[-1]:
                 return None
             if plain in self.curs[-1]:
-                return self.name(self.curs[-1][plain]), self.env.get(nm, sp.Symbol(nm))
+                self.note_read(nm)
+                return self.cur_base(plain), self.env.get(nm, sp.Symbol(nm))
             return nm, sp.Integer(0)
         if k == "BinaryOperator" and s.get("opcode") in ("+", "-") and len(inner) == 2:
             ptrs = [x for x in inner if _is_ptr_type(_qual(x))]
@@ -637,22 +753,50 @@ class _CExec:
             return b[0], sp.simplify(b[1])
         return None
 
+    def cur_base(self, plain):
+        """the array a cursor of the function being executed walks through: a variable of that function, the data of an array
+        object held by one, or -- for a pointer parameter of a helper executed in line -- the array the caller passed (kept as
+        ("=", array): already a name of the caller)"""
+        b = self.curs[-1][plain]
+        for _ in range(4):
+            if isinstance(b, tuple):
+                return b[1]
+            if b in self.curs[-1]:
+                b = self.curs[-1][b]
+                continue
+            break
+        if b.startswith("DATA("):
+            return "DATA(%s)" % self.name(b[5:-1])
+        return self.name(b)
+
     def ptr_assign(self, plain, rhs, line):
         """cursor = address expression: the new offset in the cursor's array"""
         if _null_ptr(rhs):
             self.assign(self.name(plain), sp.Symbol("?null@%s" % line))
             return
         b = self.ptr_expr(rhs)
-        if b is None or b[0] != self.name(self.curs[-1][plain]):
+        if b is None or b[0] != self.cur_base(plain):
             raise _NotModelled("pointer `%s` set to a position that was not traced to `%s` (line %s)" % (plain, self.curs[-1][plain], line))
         self.assign(self.name(plain), b[1])
 
     # -- statements -------------------------------------------------------
     def block(self, stmts, toplevel=False):
         """returns True when control cannot fall out of the end of the statement list"""
+        skip = 0
         for k_, st in enumerate(stmts):
             if st.get("kind") == "LabelStmt":
-                raise _NotModelled("label `%s` reached by falling through (line %s)" % (st.get("name"), st.get("line")))
+                # a label of the function's own top level that control falls into: the common exit that `goto`s placed before it
+                # jump to.  What is known about the variables holds on the falling-through path only, so it is forgotten here.
+                if not (toplevel and self.depth == 0 and len(self.stack) == 1 and not self.cond_depth):
+                    raise _NotModelled("label `%s` reached by falling through (line %s)" % (st.get("name"), st.get("line")))
+                self.join(st)
+                self.labels.add(st.get("declId") or st.get("name"))
+                inner = [x for x in (st.get("inner", []) or []) if isinstance(x, dict) and x.get("kind")]
+                st = inner[-1] if inner else {"kind": "NullStmt"}
+            if skip:
+                skip -= 1
+                continue
+            st, skip = self.with_next_loops(st, stmts, k_)
             if self.stmt(st):
                 rest = stmts[k_ + 1:]
                 # what follows a return / goto at the top level of the function is its error exit (reached by goto only)
@@ -661,6 +805,14 @@ class _CExec:
                         raise _NotModelled("label after a jump inside a nested block (line %s)" % rest[0].get("line"))
                 return True
         return False
+
+    def join(self, st):
+        """control arrives here from several places: every variable assigned so far holds a value that is not followed"""
+        for v in list(self.env):
+            if isinstance(v, tuple):
+                del self.env[v]
+            elif v in self.history:
+                self.env[v] = sp.Symbol("?%s@%s" % (v, st.get("line", 0)))
 
     def body(self, st):
         return self.block(st.get("inner", []) or []) if st.get("kind") == "CompoundStmt" else self.block([st])
@@ -708,10 +860,19 @@ class _CExec:
                 base, idx = loc
                 if self.cond_depth:
                     raise _NotModelled("element store under an if (line %s)" % st.get("line"))
+                if self.access is not None:
+                    self.access.append(("w", base, idx))
+                # what is remembered about other elements of the array survives only where the two indices certainly differ
+                for key in [key for key in self.env if isinstance(key, tuple) and key[1] == base and key[2] != idx]:
+                    d = sp.simplify(key[2] - idx)
+                    if not (d.is_number and d != 0):
+                        del self.env[key]
                 self.env[("elem", base, idx)] = val
                 for t in self.track:
                     t.add(("array", base))
                 if not self.dry:
+                    # a second store to the same element in one pass replaces the first (reads in between were given the first value)
+                    self.stack[-1].stores = [x for x in self.stack[-1].stores if not (x[0] == base and x[1] == idx)]
                     self.stack[-1].stores.append((base, idx, val, st.get("line", 0)))
             elif _deref_param(lhs) is not None and self.name(_deref_param(lhs)) in self.alias[-1]:
                 self.assign(self.alias[-1][self.name(_deref_param(lhs))], val)
@@ -726,6 +887,7 @@ class _CExec:
                 raise _NotModelled("pointer `%s` is stepped but was not traced to one array (line %s)" % (cfront.render(lhs), st.get("line")))
             nm = self.name(lhs["referencedDecl"]["name"])
             cur = self.env.get(nm, sp.Symbol(nm))
+            self.note_read(nm)
             if k == "UnaryOperator":
                 new = cur + (1 if st["opcode"] == "++" else -1)
             else:
@@ -751,6 +913,8 @@ class _CExec:
         if k == "GotoStmt":
             if self.depth or len(self.stack) > 1:
                 raise _NotModelled("goto inside a loop or helper (line %s)" % st.get("line"))
+            if st.get("targetLabelDeclId") in self.labels or st.get("targetLabelDeclId") is None:
+                raise _NotModelled("goto to a label placed before it (line %s)" % st.get("line"))
             return True
         if k == "IfStmt":
             self.havoc_addr_args(inner[0])
@@ -805,6 +969,133 @@ class _CExec:
         self.havoc_addr_args(st)
         return False
 
+    # -- two loops as one ---------------------------------------------------
+    def with_next_loops(self, st, stmts, k):
+        """loop fission undone: consecutive counted loops over the same range are run as one loop when that provably gives every
+        statement the same values (see fused) -> (statement to run, number of following statements it stands for)"""
+        n = 0
+        while st.get("kind") == "ForStmt" and k + n + 1 < len(stmts) and stmts[k + n + 1].get("kind") == "ForStmt" and not self.cond_depth:
+            f = self.fused(st, stmts[k + n + 1])
+            if f is None:
+                break
+            st = f
+            n += 1
+        return st, n
+
+    def probe(self, counter, body):
+        """(variables assigned, accesses) of one pass of a loop body whose counter is the symbol `counter`: ("r" / "w", array, index)
+        for elements, ("rs", variable, None) for reads of variables; None when the body is not modelled"""
+        save_env, save_access = dict(self.env), self.access
+        seen, log = set(), []
+        try:
+            for phase in (0, 1):
+                self.env = dict(save_env)
+                self.env[counter] = sp.Symbol(counter)
+                if phase == 1:
+                    for v in seen:
+                        if isinstance(v, tuple):
+                            for key in [key for key in self.env if isinstance(key, tuple) and key[1] == v[1]]:
+                                del self.env[key]
+                        elif v != counter:
+                            self.env[v] = sp.Symbol(v)
+                    self.access = log
+                self.track.append(seen if phase == 0 else set())
+                self.dry += 1
+                try:
+                    if self.body(body):
+                        return None
+                finally:
+                    self.dry -= 1
+                    self.track.pop()
+        except (_NotModelled, csymx.CUnsupported, KeyError, TypeError, ValueError, IndexError):
+            return None
+        finally:
+            self.env, self.access = save_env, save_access
+        return seen, log
+
+    def fused(self, a, b):
+        """the loop `for (h) { A; B }` when `for (h) A  for (h) B` (same header h: i from a constant, while i <= / < a bound that
+        neither body changes, in steps of one) computes the same: no variable assigned by one body is used by the other, and no
+        element that pass i of B touches is written by a LATER pass i' > i of A (or read there when B writes it) -- then every
+        statement still finds the values it found before.  Indices must be affine in the counter; the bound may be floor(q):
+        i < i' <= floor(q) gives i + i' <= 2q - 1.  None when this was not established."""
+        ia, ib = (a.get("inner") or []) + [{}] * 5, (b.get("inner") or []) + [{}] * 5
+        if [cfront.render(x) if x and x.get("kind") else "" for x in ia[:4]] != [cfront.render(x) if x and x.get("kind") else "" for x in ib[:4]]:
+            return None
+        init, cond, inc = cfront.strip(ia[0]), cfront.strip(ia[2]), cfront.strip(ia[3])
+        if not (init.get("kind") == "BinaryOperator" and init.get("opcode") == "=" and cfront.strip(init["inner"][0]).get("kind") == "DeclRefExpr"):
+            return None
+        plain = cfront.strip(init["inner"][0])["referencedDecl"]["name"]
+        steps = ("++%s" % plain, "%s++" % plain, "(%s += 1)" % plain, "(++%s)" % plain, "(%s++)" % plain)
+        if cfront.render(inc) not in steps or not (cond.get("kind") == "BinaryOperator" and cond.get("opcode") in ("<", "<=")
+                                                   and cfront.render(cond["inner"][0]) == plain and _is_int_type(_qual(cond["inner"][0]))):
+            return None
+        for body in (ia[4], ib[4]):
+            if any(x.get("kind") in ("BreakStmt", "ContinueStmt", "ReturnStmt", "GotoStmt", "LabelStmt", "SwitchStmt") for x in cfront.walk(body)):
+                return None
+            for c in cfront.walk(body):
+                if c.get("kind") == "CallExpr" and cfront.callee_name(c) not in self.helpers and cfront.callee_name(c) not in csymx.MATH:
+                    return None
+        i = self.name(plain)
+        lo = self.value(init["inner"][1], "start")
+        hi = self.value(cond["inner"][1], "bound")
+        if cond["opcode"] == "<":
+            hi = hi - 1
+        pa, pb = self.probe(i, ia[4]), self.probe(i, ib[4])
+        if pa is None or pb is None:
+            return None
+        prefix = self.prefix if self.depth else ""
+
+        def shared(names, body):
+            own = {prefix + x.get("name") for x in cfront.walk(body) if x.get("kind") == "VarDecl"}
+            return {v for v in names if v != i and v not in own and not ("::" in v and not (prefix and v.startswith(prefix)))}
+        wa, wb = ({v for v in p[0] if not isinstance(v, tuple)} for p in (pa, pb))
+        ra, rb = ({v for kind, v, _ in p[1] if kind == "rs"} for p in (pa, pb))
+        if i in wa or i in wb:
+            return None
+        bound_vars = {self.name(x["referencedDecl"]["name"]) for x in cfront.walk(cond["inner"][1]) if x.get("kind") == "DeclRefExpr"}
+        if bound_vars & (wa | wb):
+            return None
+        if shared(wa, ia[4]) & shared(rb | wb, ib[4]) or shared(wb, ib[4]) & shared(ra | wa, ia[4]):
+            return None
+        I, J = sp.Symbol(i), sp.Symbol("?later")
+        inner_vars = {sp.Symbol(v) for v in (wa | wb) if v != i}
+
+        def overtaken(xa, xb):
+            """can pass J > I of the first body touch the element that pass I of the second touches (None: not decided)"""
+            for t in (xa, xb, lo, hi):
+                if not isinstance(t, sp.Basic) or t.free_symbols & inner_vars or any(str(y).startswith("?") for y in t.free_symbols):
+                    return None
+            eq = sp.expand(xa.xreplace({I: J}) - xb)
+            cj, ci = sp.diff(eq, J), sp.diff(eq, I)
+            rest = sp.simplify(eq - cj * J - ci * I)
+            if any(t.free_symbols & {I, J} for t in (cj, ci, rest)) or not (cj.is_Integer and ci.is_Integer):
+                return None
+            if cj == 0 and ci == 0:
+                return False if (rest.is_number and bool(rest != 0)) else None
+            if cj == -ci:                       # same direction: J - I = d
+                d = sp.simplify(-rest / cj)
+                return bool(d > 0) if d.is_number and d.is_real else None
+            if cj == ci:                        # opposite directions: I + J = t, while I < J <= hi gives I + J <= 2 hi - 1
+                t = sp.simplify(-rest / cj)
+                top = 2 * hi.args[0] - 1 if isinstance(hi, sp.floor) else 2 * hi - 1
+                gap = sp.simplify(t - top)
+                if gap.is_number and gap.is_real and bool(gap > 0):
+                    return False
+                low = sp.simplify(2 * lo + 1 - t)
+                if low.is_number and low.is_real and bool(low > 0):
+                    return False
+            return None
+        ea, eb = [x for x in pa[1] if x[0] != "rs"], [x for x in pb[1] if x[0] != "rs"]
+        for ka, ba, xa in ea:
+            for kb, bb, xb in eb:
+                if ba == bb and "w" in (ka, kb) and overtaken(xa, xb) is not False:
+                    return None
+
+        def stmts(body):
+            return list(body.get("inner", []) or []) if body.get("kind") == "CompoundStmt" else [body]
+        return dict(a, inner=list(ia[:4]) + [{"kind": "CompoundStmt", "line": ia[4].get("line", 0), "inner": stmts(ia[4]) + stmts(ib[4])}])
+
     def loop(self, kind, cond, inc, body, line):
         def one_pass():
             if self.body(body):
@@ -837,6 +1128,11 @@ class _CExec:
         if not self.dry:
             self.stack[-1].children.append(L)
         self.stack.append(L)
+        # a loop tested before each pass may run no pass at all: nothing it assigns is certainly assigned for the loops around it
+        if kind == "pre":
+            for e in self.fresh:
+                e["susp"] += 1
+        self.fresh.append(dict(names=set(L.defined), cd=self.cond_depth, susp=0, loop=L))
         try:
             if kind == "pre":
                 L.cond = self.value(cond, "condition") if cond and cond.get("kind") else sp.true
@@ -846,6 +1142,10 @@ class _CExec:
             L.out = {v: self.env.get(v, sp.Symbol(v)) for v in L.defined}
         finally:
             self.stack.pop()
+            self.fresh.pop()
+            if kind == "pre":
+                for e in self.fresh:
+                    e["susp"] -= 1
         forget()
 
     def inline(self, call):
@@ -859,6 +1159,8 @@ class _CExec:
             raise _NotModelled("call of %s does not fit its parameter list" % nm)
         prefix = nm + "::"
         scope, alias, vals = {}, {}, []
+        ptypes = {c.get("name", ""): _qual(c) for c in callee.get("inner", []) if c.get("kind") == "ParmVarDecl"}
+        passed = {}
         for p, a in zip(params, args):
             v = _addr_of_var(a)
             scope[p] = prefix + p
@@ -866,11 +1168,23 @@ class _CExec:
                 alias[prefix + p] = self.name(v)
             else:
                 self.havoc_addr_args(a)
-                vals.append((prefix + p, self.value(a, p)))
+                pos = None
+                if _is_ptr_type(ptypes.get(p, "")):
+                    # a position in an array of the caller: inside the helper the parameter is a cursor into that array
+                    try:
+                        pos = self.ptr_expr(a)
+                    except (csymx.CUnsupported, KeyError, TypeError, ValueError, IndexError):
+                        pos = None
+                if pos is not None:
+                    passed[p] = ("=", pos[0])
+                    vals.append((prefix + p, pos[1]))
+                else:
+                    vals.append((prefix + p, self.value(a, p)))
         old_prefix, old_ret, old_base = getattr(self, "prefix", ""), self.retval, self.ret_base
         self.scope.append(scope)
         self.alias.append(alias)
-        self.curs.append(_cursors(callee))
+        self.curs.append(dict(_cursors(callee), **passed))
+        self.frames.append(callee)
         self.ret_base = len(self.stack)      # loops of the caller that are open around the call are not loops of the helper
         self.prefix = prefix
         self.depth += 1
@@ -883,8 +1197,13 @@ class _CExec:
                 else:
                     self.env[pn] = v         # a value parameter the helper only reads is a name for the argument, not a variable
             stmts = cfront.body_of(callee).get("inner", []) or []
+            skip = 0
             for k_, s in enumerate(stmts):
-                if self.stmt(s) and k_ != len(stmts) - 1:
+                if skip:
+                    skip -= 1
+                    continue
+                s, skip = self.with_next_loops(s, stmts, k_)
+                if self.stmt(s) and k_ + skip != len(stmts) - 1:
                     raise _NotModelled("helper %s returns before its last statement" % nm)
             r = self.retval
         finally:
@@ -893,6 +1212,7 @@ class _CExec:
             self.scope.pop()
             self.alias.pop()
             self.curs.pop()
+            self.frames.pop()
             self.ret_base = old_base
             self.retval = old_ret
         return r
@@ -904,31 +1224,77 @@ def _rename_terms(x, sub):
     return x
 
 
-def _normal_form(fn, helpers, param_names):
-    """loop tree of the function (see _CExec) with canonical names: the three inputs are called x1, x2, npts; locals of helpers
-    executed in line get their plain names back (when free in the caller, or when the caller's variable of that name only ever
-    receives that local through an `&` argument)"""
-    ex = _CExec(fn, helpers)
+def _returned_items(fn):
+    """names of the variables whose objects the extension function returns as items 0, 1, .. of a tuple (PyTuple_SetItem /
+    PyTuple_Pack / Py_BuildValue with object codes); None when they were not identified"""
+    items = {}
+
+    def var(a):
+        a = cfront.strip(a)
+        return a["referencedDecl"]["name"] if a.get("kind") == "DeclRefExpr" and a.get("referencedDecl", {}).get("kind") in ("VarDecl", "ParmVarDecl") else None
+
+    def put(k, a):
+        items.setdefault(k, set()).add(var(a))
+    for c in cfront.calls_in(cfront.body_of(fn) or {}):
+        nm, args = cfront.callee_name(c), cfront.call_args(c)
+        if nm in ("PyTuple_SetItem", "PyTuple_SET_ITEM") and len(args) == 3:
+            k = cfront.strip(args[1])
+            if k.get("kind") != "IntegerLiteral":
+                return None
+            put(int(k["value"]), args[2])
+        elif nm == "PyTuple_Pack" and len(args) >= 1:
+            for k, a in enumerate(args[1:]):
+                put(k, a)
+        elif nm in ("Py_BuildValue", "_Py_BuildValue_SizeT") and args:
+            from vcheck.ceffects import c_string_literal
+            fmt = (c_string_literal(args[0]) or "?").strip("()[] ")
+            if not fmt or any(ch not in "ONS" for ch in fmt) or len(fmt) != len(args) - 1:
+                return None
+            for k, a in enumerate(args[1:]):
+                put(k, a)
+    if not items or sorted(items) != list(range(len(items))) or any(len(v) != 1 or None in v for v in items.values()):
+        return None
+    return [next(iter(items[k])) for k in range(len(items))]
+
+
+def _normal_form(fn, helpers, param_names, arrays=None, tu=None):
+    """loop tree of the function (see _CExec) with canonical names: the three inputs are called x1, x2, npts, the two output arrays
+    (`arrays`: name the executor knows them by -> role) x (abscissae) and w (weights); locals of helpers executed in line get their
+    plain names back (when that name is free in the caller and no other helper has a local of that name, or when the caller's
+    variable of that name only ever receives that local through an `&` argument)"""
+    ex = _CExec(fn, helpers, tu)
     names = set()
     for L in ex.top.walk():
         names |= L.defined
     sub = {}
-    for n in sorted(names | set(ex.history)):
-        if "::" in n:
-            plain = n.rsplit("::", 1)[1]
-            hist = ex.history.get(plain, [])
-            if plain not in names and plain not in ex.history or all(h == sp.Symbol(n) for h in hist):
-                sub[n] = plain
+    scoped = sorted(n for n in names | set(ex.history) if "::" in n)
+    for n in scoped:
+        plain = n.rsplit("::", 1)[1]
+        if sum(1 for m in scoped if m.rsplit("::", 1)[1] == plain) != 1:
+            continue
+        hist = ex.history.get(plain, [])
+        if plain not in names and plain not in ex.history or all(h == sp.Symbol(n) for h in hist):
+            sub[n] = plain
     for a, b in zip(param_names, ("x1", "x2", "npts")):
         if a != b:
             sub[a] = b
     ssub = {sp.Symbol(a): sp.Symbol(b) for a, b in sub.items()}
+    arrays = dict(arrays or {})
+
+    def rn(t):
+        t = _rename_terms(t, ssub)
+        if isinstance(t, sp.Basic) and arrays:
+            hits = [e for e in t.atoms(sp.core.function.AppliedUndef) if e.func.__name__ in arrays]
+            if hits:
+                t = t.xreplace({e: sp.Function(arrays[e.func.__name__])(*e.args) for e in hits})
+        return t
     for L in ex.top.walk():
-        L.cond = _rename_terms(L.cond, ssub)
+        L.cond = rn(L.cond)
         L.defined = {sub.get(v, v) for v in L.defined}
-        L.entry = {sub.get(v, v): _rename_terms(t, ssub) for v, t in L.entry.items()}
-        L.out = {sub.get(v, v): _rename_terms(t, ssub) for v, t in L.out.items()}
-        L.stores = [(sub.get(b, b), _rename_terms(i, ssub), _rename_terms(v, ssub), ln) for b, i, v, ln in L.stores]
+        L.entry = {sub.get(v, v): rn(t) for v, t in L.entry.items()}
+        L.out = {sub.get(v, v): rn(t) for v, t in L.out.items()}
+        L.stores = [(arrays.get(b, sub.get(b, b)), rn(i), rn(v), ln) for b, i, v, ln in L.stores]
+        L.live_in = {sub.get(v, v) for v in L.live_in}
     _canon_loops(ex.top)
     return ex.top
 
@@ -972,6 +1338,7 @@ def _canon_loops(top):
         if not (in_cond or counters):
             continue
         i = (in_cond or counters)[0]
+        L.counter = i
         I = sp.Symbol(i)
         e0 = L.entry[i]
         if e0 != 1:
@@ -991,11 +1358,24 @@ def _canon_loops(top):
             L.out.pop(u, None)
 
 
+_zero_cache = {}
+
+
 def _zero(e):
     try:
-        return sp.simplify(e) == 0
+        if e in _zero_cache:
+            return _zero_cache[e]
+    except TypeError:
+        pass
+    try:
+        r = sp.simplify(e) == 0
     except Exception:
-        return False
+        r = False
+    try:
+        _zero_cache[e] = r
+    except TypeError:
+        pass
+    return r
 
 
 def _same_term(a, b):
@@ -1055,7 +1435,8 @@ def _loops_agree(a, b, live, diffs, path="fn"):
 
 def _state_agrees(a, b, live, diffs, path="fn"):
     for v in sorted((a.defined | b.defined) & live):
-        if a.kind != "top" and not _same_term(a.entry.get(v), b.entry.get(v)):
+        # the value a variable has when the loop is entered matters only if some pass may read it before assigning the variable
+        if a.kind != "top" and v in (a.live_in | b.live_in) and not _same_term(a.entry.get(v), b.entry.get(v)):
             diffs.append("%s: %s on entry %s vs %s" % (path, v, a.entry.get(v), b.entry.get(v)))
         if a.kind != "top" and not _same_term(a.out.get(v), b.out.get(v)):
             diffs.append("%s: %s after one pass %s vs %s" % (path, v, a.out.get(v), b.out.get(v)))
@@ -1071,22 +1452,144 @@ def _state_agrees(a, b, live, diffs, path="fn"):
         _state_agrees(x, y, live, diffs, "%s/loop%d" % (path, k))
 
 
+def _positions(top, path=()):
+    yield path, top
+    for k, c in enumerate(top.children):
+        for x in _positions(c, path + (k,)):
+            yield x
+
+
+def _carried(top, live):
+    """{live variable: the positions of the loops that assign it}: which loops carry it is a property of the computation, its name is not"""
+    sig = {}
+    for pos, L in _positions(top):
+        for v in L.defined & live:
+            sig.setdefault(v, []).append(pos)
+    return {v: tuple(p) for v, p in sig.items()}
+
+
+def _all_vars(top):
+    out = set()
+    for L in top.walk():
+        out |= L.defined
+    return out
+
+
+def _renamed(top, m):
+    """copy of the loop tree with its variables renamed by m (simultaneously); other variables that would collide with a new name
+    are moved out of the way"""
+    m = dict(m)
+    for v in sorted(_all_vars(top)):
+        if v not in m and v in m.values():
+            m[v] = "~" + v
+    sub = {sp.Symbol(a): sp.Symbol(b) for a, b in m.items() if a != b}
+
+    def f(t):
+        return t.xreplace(sub) if isinstance(t, sp.Basic) and sub else t
+
+    def cp(L):
+        N = _Loop(L.kind, L.line)
+        N.cond = f(L.cond)
+        N.defined = {m.get(v, v) for v in L.defined}
+        N.entry = {m.get(v, v): f(t) for v, t in L.entry.items()}
+        N.out = {m.get(v, v): f(t) for v, t in L.out.items()}
+        N.stores = [(b, f(ix), f(v), ln) for b, ix, v, ln in L.stores]
+        N.counter = m.get(L.counter, L.counter)
+        N.live_in = {m.get(v, v) for v in L.live_in}
+        N.children = [cp(c) for c in L.children]
+        return N
+    return cp(top)
+
+
+def _blind(t, names):
+    """the term with every carried variable replaced by one placeholder: equal for terms that differ in variable names only"""
+    if not isinstance(t, sp.Basic):
+        return t
+    return t.xreplace({sp.Symbol(n): sp.Symbol("_") for n in names})
+
+
+def _name_maps(a, b, live_a, live_b, limit=48):
+    """candidate one-to-one maps {variable of b: variable of a} between the live loop-carried variables of two loop trees: a variable
+    can only correspond to one carried by the loops at the same positions.  Most plausible first (same name, same entry value /
+    transformer up to names).  None when the two trees do not carry the same number of variables at each position."""
+    import itertools
+    ca, cb = _carried(a, live_a), _carried(b, live_b)
+    ga, gb = {}, {}
+    for v, sg in ca.items():
+        ga.setdefault(sg, []).append(v)
+    for v, sg in cb.items():
+        gb.setdefault(sg, []).append(v)
+    if set(ga) != set(gb) or any(len(ga[k]) != len(gb[k]) for k in ga):
+        return None
+    pa, pb = dict(_positions(a)), dict(_positions(b))
+    na, nb = set(ca), set(cb)
+
+    def aff(u, v):
+        sc = 4 if u == v else 0
+        for pos in ca[u]:
+            if pos in pa and pos in pb:
+                for part in ("entry", "out"):
+                    x, y = getattr(pa[pos], part).get(u), getattr(pb[pos], part).get(v)
+                    if x is not None and y is not None and _blind(x, na) == _blind(y, nb):
+                        sc += 1
+        return sc
+    per = []
+    for sg in sorted(ga):
+        us, vs = sorted(ga[sg]), sorted(gb[sg])
+        opts = []
+        for perm in itertools.permutations(us):
+            opts.append((sum(aff(u, v) for u, v in zip(perm, vs)), dict(zip(vs, perm))))
+        opts.sort(key=lambda o: -o[0])
+        per.append(opts[:6])
+    cands = []
+    for combo in itertools.product(*per):
+        m = {}
+        for _, d in combo:
+            m.update(d)
+        cands.append((sum(sc for sc, _ in combo), m))
+    cands.sort(key=lambda c: -c[0])
+    return [m for _, m in cands[:limit]]
+
+
 def siblings(chk, nf_cg, nf_cl):
     where = "esutil/cosmology/cosmolib.c"
     if nf_cg is None or nf_cl is None:
         for key in ("gauleg-copies-agree", "gauleg-copies-same-loop-structure"):
             chk.ob("R17.2", key, None, where, "one of the two routines uses a construct the structured executor does not model")
         return
-    live = _live(nf_cg) | _live(nf_cl)
-    diffs = []
-    _state_agrees(nf_cg, nf_cl, live, diffs)
-    n = sum(len(L.stores) + len((L.defined & live)) for L in nf_cg.walk())
-    chk.ob("R17.2", "gauleg-copies-agree", not diffs, where,
-           "the cosmology library's copy of the node/weight routine computes the same %d loop-carried values and element stores as the standalone extension%s"
-           % (n, "" if not diffs else ": first difference %s" % diffs[0]))
-    diffs = []
-    _loops_agree(nf_cg, nf_cl, live, diffs)
-    chk.ob("R17.2", "gauleg-copies-same-loop-structure", not diffs, where, "loop nests agree (%s vs %s)" % (_loop_shape(nf_cg)[2], _loop_shape(nf_cl)[2]))
+    # the two copies need not call their variables the same: they agree when SOME one-to-one renaming of the loop-carried
+    # variables makes every entry value, transformer, condition and element store equal
+    # the element stores are compared by the role of the array (x abscissae, w weights): both copies must have been read that far
+    other = sorted({st[0] for nf in (nf_cg, nf_cl) for L in nf.walk() for st in L.stores} - {"x", "w"})
+    if other:
+        chk.ob("R17.2", "gauleg-copies-agree", None, where, "an array that one of the routines stores into was not identified as its abscissa or weight output (%s)" % other)
+        chk.ob("R17.2", "gauleg-copies-same-loop-structure", None, where, "an array that one of the routines stores into was not identified as its abscissa or weight output (%s)" % other)
+        return
+    la, lb = _live(nf_cg), _live(nf_cl)
+    maps = _name_maps(nf_cg, nf_cl, la, lb)
+    positive = True
+    if maps is None:
+        # not the same number of carried variables: compared under their own names, which says something only if the names are the same
+        maps = [{}]
+        positive = set(_carried(nf_cg, la)) == set(_carried(nf_cl, lb))
+    best = None
+    for m in maps:
+        rb = _renamed(nf_cl, m)
+        live = la | {m.get(v, v) for v in lb}
+        d1, d2 = [], []
+        _state_agrees(nf_cg, rb, live, d1)
+        _loops_agree(nf_cg, rb, live, d2)
+        if best is None or len(d1) + len(d2) < len(best[0]) + len(best[1]):
+            best = (d1, d2, rb, m)
+        if not d1 and not d2:
+            break
+    d1, d2, rb, m = best
+    shown = {k: v for k, v in m.items() if k != v}
+    n = sum(len(L.stores) + len((L.defined & la)) for L in nf_cg.walk())
+    chk.ob("R17.2", "gauleg-copies-agree", (not d1) or (False if positive else None), where,
+           "the cosmology library's copy of the node/weight routine computes the same %d loop-carried values and element stores as the standalone extension%s%s"
+           % (n, " (its variables read as %s)" % shown if shown else "", "" if not d1 else ": first difference %s" % d1[0]))
+    chk.ob("R17.2", "gauleg-copies-same-loop-structure", (not d2) or (False if positive else None), where, "loop nests agree (%s vs %s)" % (_loop_shape(nf_cg)[2], _loop_shape(rb)[2]))
 
 
 def _bound(L, v):
@@ -1106,64 +1609,102 @@ def _bound(L, v):
     return None
 
 
+_FORMULA_KEYS = ["interval midpoint", "interval half width", "number of roots computed (half, rounded up)", "initial guess of root i",
+                 "Legendre recurrence j P_j = (2j-1) z P_(j-1) - (j-1) P_(j-2)", "derivative identity P_n' = n (z P_n - P_(n-1))/(z^2-1)", "Newton step",
+                 "lower abscissa", "mirrored abscissa (index sum n-1)", "weight 2 xl/((1-z^2) P_n'^2)", "mirrored weight", "recurrence start P_0 = 1",
+                 "recurrence start P_(-1) = 0", "tolerance", "newton-stops-at-tolerance", "recurrence-range", "recurrence-shift-order", "root-loop-range",
+                 "previous-iterate-saved"]
+
+
 def formulas(chk, nf, name, where):
     """R17.3: the textbook definitions, stated on the normal form (values on loop entry, state transformer of one pass, loop
-    conditions, element stores) with the roles z, z1 (iterate / previous iterate), p1, p2 (P_j, P_(j-1)), pp (derivative), i, j"""
-    S = {n: sp.Symbol(n) for n in ("x1", "x2", "npts", "i", "j", "z", "z1", "p1", "p2", "pp")}
-    x1, x2, npts, i, j, z, p1, p2, pp = (S[k] for k in ("x1", "x2", "npts", "i", "j", "z", "p1", "p2", "pp"))
-    keys = ["interval midpoint", "interval half width", "number of roots computed (half, rounded up)", "initial guess of root i",
-            "Legendre recurrence j P_j = (2j-1) z P_(j-1) - (j-1) P_(j-2)", "derivative identity P_n' = n (z P_n - P_(n-1))/(z^2-1)", "Newton step",
-            "lower abscissa", "mirrored abscissa (index sum n-1)", "weight 2 xl/((1-z^2) P_n'^2)", "mirrored weight", "recurrence start P_0 = 1",
-            "recurrence start P_(-1) = 0", "tolerance", "newton-stops-at-tolerance", "recurrence-range", "recurrence-shift-order", "root-loop-range",
-            "previous-iterate-saved"]
+    conditions, element stores) with the roles z (iterate), p1, p2 (P_j, P_(j-1)), pp (derivative), i, j.  Which variable of the
+    code plays which role is not read off its name: i and j are the pass counters of the root and recurrence loops, z and pp are
+    among the variables the refinement loop carries, p1 and p2 among those the recurrence loop carries, and the assignment of
+    roles under which most definitions hold is the one reported (a routine that conforms does so under exactly one assignment)."""
+    import itertools
     # the three loops by their place: the loop that stores the results, the refinement loop inside it, the recurrence inside that
     root = [L for L in (nf.walk() if nf is not None else []) if L.kind != "top" and L.stores]
     newton = [c for c in root[0].children if c.children] if len(root) == 1 else []
     rec = newton[0].children if len(newton) == 1 else []
     if not (len(root) == 1 and len(newton) == 1 and len(rec) == 1 and not rec[0].children):
-        for k in keys:
+        for k in _FORMULA_KEYS:
             chk.ob("R17.3", "%s::%s" % (name, k), None, where, "the nest root loop / refinement loop / recurrence loop was not found in this form")
         return
     root, newton, rec = root[0], newton[0], rec[0]
+    live = _live(nf)
+    ci = root.counter or ("i" if "i" in root.defined else None)
+    cj = rec.counter or ("j" if "j" in rec.defined else None)
+    zp = sorted(((newton.defined - rec.defined) & live) - {ci, cj})
+    pq = sorted((rec.defined & live) - {ci, cj})
+    if ci is None or cj is None or len(zp) < 2 or len(pq) < 2 or len(zp) > 4 or len(pq) > 4:
+        for k in _FORMULA_KEYS:
+            chk.ob("R17.3", "%s::%s" % (name, k), None, where, "the variables that carry the iterate, the derivative and the two polynomial values were not identified "
+                   "(counters %s, %s; carried by the refinement loop %s, by the recurrence %s)" % (ci, cj, zp, pq))
+        return
+    cands = [dict(i=ci, j=cj, z=a, pp=b, p1=c, p2=d) for a, b in itertools.permutations(zp, 2) for c, d in itertools.permutations(pq, 2)]
+    # the textbook names first (then a conforming routine written with them is decided in one evaluation)
+    cands.sort(key=lambda r: -sum(1 for k, v in r.items() if v.rsplit("::", 1)[-1] == k))
+    best = None
+    for roles in cands:
+        res = _formula_results(root, newton, rec, roles)
+        score = (sum(1 for _, ok, _ in res if ok is False), sum(1 for _, ok, _ in res if ok is None))
+        if best is None or score < best[0]:
+            best = (score, res, roles)
+        if score == (0, 0):
+            break
+    _, res, roles = best
+    chk.notes["roles_" + name] = dict(roles)
+    renamed = {k: v for k, v in roles.items() if k != v}
+    for key, ok, msg in res:
+        chk.ob("R17.3", "%s::%s" % (name, key), ok, where, msg + (" [roles: %s]" % renamed if renamed and not ok else ""))
+
+
+def _formula_results(root, newton, rec, roles):
+    """[(key, ok, message)] of the textbook definitions with the given variables in the roles i, j, z, pp, p1, p2"""
+    S = {n: sp.Symbol(n) for n in ("x1", "x2", "npts")}
+    S.update({r: sp.Symbol(v) for r, v in roles.items()})
+    x1, x2, npts, i, j, z, p1, p2, pp = (S[k] for k in ("x1", "x2", "npts", "i", "j", "z", "p1", "p2", "pp"))
+    R = roles
+    res = []
 
     def ob(key, ok, msg):
-        chk.ob("R17.3", "%s::%s" % (name, key), ok, where, msg)
+        res.append((key, ok, msg))
 
-    def has(L, part, v, ref, key, what):
-        """value of role v (entry value or transformer) in loop L; not assigned there at all: the role was not recognised"""
+    def has(L, part, role, ref, key, what):
+        """value of the role's variable (entry value or transformer) in loop L; not assigned there at all: the role was not recognised"""
+        v = R[role]
         got = getattr(L, part).get(v)
         ob(key, None if got is None and v not in L.defined else _same_term(got, ref), "%s: %s (found %s)" % (key, what, got))
 
     # root loop: i = 1 .. (npts+1)/2
-    bi = _bound(root, "i")
+    bi = _bound(root, R["i"])
     has(root, "entry", "i", sp.Integer(1), "root-loop-range", "roots i = 1.. are computed and mirrored, i starts at 1")
-    ob("number of roots computed (half, rounded up)", None if "i" not in root.defined else (bi is not None and _same_term(sp.floor(bi), sp.floor((npts + 1) / 2)) and _same_term(root.out.get("i"), i + 1)),
-       "the root loop runs while i <= (npts+1)/2 in steps of one (condition %s, step %s)" % (root.cond, root.out.get("i")))
+    ob("number of roots computed (half, rounded up)", None if R["i"] not in root.defined else (bi is not None and _same_term(sp.floor(bi), sp.floor((npts + 1) / 2)) and _same_term(root.out.get(R["i"]), i + 1)),
+       "the root loop runs while i <= (npts+1)/2 in steps of one (condition %s, step %s)" % (root.cond, root.out.get(R["i"])))
     has(newton, "entry", "z", sp.cos(sp.pi * (i - sp.Rational(1, 4)) / (npts + sp.Rational(1, 2))), "initial guess of root i", "z starts at cos(pi (i - 1/4)/(n + 1/2))")
     # recurrence loop
     has(rec, "out", "p1", ((2 * j - 1) * z * p1 - (j - 1) * p2) / j, "Legendre recurrence j P_j = (2j-1) z P_(j-1) - (j-1) P_(j-2)", "one pass maps (P_(j-1), P_(j-2)) = (p1, p2) to p1 = ((2j-1) z p1 - (j-1) p2)/j")
     has(rec, "out", "p2", p1, "recurrence-shift-order", "the previous value is shifted before the new one is formed: after one pass p2 is the old p1")
     has(rec, "entry", "p1", sp.Integer(1), "recurrence start P_0 = 1", "p1 = 1 when the recurrence starts")
     has(rec, "entry", "p2", sp.Integer(0), "recurrence start P_(-1) = 0", "p2 = 0 when the recurrence starts")
-    bj = _bound(rec, "j")
-    ob("recurrence-range", None if "j" not in rec.defined else (bj is not None and _same_term(bj, npts) and _same_term(rec.entry.get("j"), sp.Integer(1)) and _same_term(rec.out.get("j"), j + 1)),
-       "the recurrence runs j = 1..npts (degree n polynomial) (from %s while %s, step %s)" % (rec.entry.get("j"), rec.cond, rec.out.get("j")))
+    bj = _bound(rec, R["j"])
+    ob("recurrence-range", None if R["j"] not in rec.defined else (bj is not None and _same_term(bj, npts) and _same_term(rec.entry.get(R["j"]), sp.Integer(1)) and _same_term(rec.out.get(R["j"]), j + 1)),
+       "the recurrence runs j = 1..npts (degree n polynomial) (from %s while %s, step %s)" % (rec.entry.get(R["j"]), rec.cond, rec.out.get(R["j"])))
     # refinement loop
     ppref = npts * (z * p1 - p2) / (z ** 2 - 1)
     has(newton, "out", "pp", ppref, "derivative identity P_n' = n (z P_n - P_(n-1))/(z^2-1)", "pp = n (z p1 - p2)/(z^2 - 1) with p1, p2 the results of the recurrence")
-    znew = newton.out.get("z")
-    ppnew = newton.out.get("pp")
+    znew = newton.out.get(R["z"])
+    ppnew = newton.out.get(R["pp"])
     ob("Newton step", None if znew is None or ppnew is None else _same_term(znew, z - p1 / ppnew), "one pass maps z to z - p1/pp (found %s)" % znew)
     # the refinement repeats while |z_new - z_old| > tolerance
     c = newton.cond
     step = tol = None
+    zold = z
     if isinstance(c, sp.Basic) and c.is_Relational and isinstance(c, (sp.Gt, sp.Ge, sp.Lt, sp.Le)):
         step, tol = (c.lhs, c.rhs) if isinstance(c, (sp.Gt, sp.Ge)) else (c.rhs, c.lhs)
         if newton.kind == "pre" and isinstance(step, sp.Symbol) and str(step) in newton.defined:
             step = newton.out.get(str(step))         # tested at the top of the next pass: the value the pass leaves behind
-            zold = z
-        else:
-            zold = z
     is_step = step is not None and znew is not None and isinstance(step, sp.Abs) and _zero(step.args[0] ** 2 - (znew - zold) ** 2)
     ob("previous-iterate-saved", None if step is None or znew is None else is_step, "the convergence test uses |z - z1| with z1 the iterate before the Newton step (found %s)" % (step,))
     plain = tol is not None and tol.is_number
@@ -1184,6 +1725,12 @@ def formulas(chk, nf, name, where):
     hi, _ = stored("x", npts - i)
     wl, found_w = stored("w", i - 1)
     wh, _ = stored("w", npts - i)
+    # a stored value that reads an element written by another pass (not followed by the executor) is not known: no verdict on it
+    unread = [t for t in (lo, hi, wl, wh) if isinstance(t, sp.Basic) and any(e.func.__name__ in ("x", "w") for e in t.atoms(sp.core.function.AppliedUndef))]
+    if unread:
+        for key in ("interval midpoint", "interval half width", "lower abscissa", "mirrored abscissa (index sum n-1)", "weight 2 xl/((1-z^2) P_n'^2)", "mirrored weight"):
+            ob(key, None, "a result is computed from an array element whose value was not followed (%s)" % unread[0])
+        return res
     xm, xl = (x1 + x2) / 2, (x2 - x1) / 2
     if lo is not None:
         mid, half = lo.subs(z, 0), -sp.diff(lo, z)
@@ -1196,6 +1743,7 @@ def formulas(chk, nf, name, where):
     ob("mirrored abscissa (index sum n-1)", None if not found_x else (hi is not None and _same_term(hi, xm + xl * z)), "x[npts-i] = xm + xl z (found %s; stores at %s)" % (hi, [str(ix) for ix, _ in st.get("x", [])]))
     ob("weight 2 xl/((1-z^2) P_n'^2)", None if not found_w else (wl is not None and _same_term(wl, 2 * xl / ((1 - z ** 2) * pp ** 2))), "w[i-1] = 2 xl/((1 - z^2) pp^2) (found %s)" % wl)
     ob("mirrored weight", None if not found_w else (wh is not None and wl is not None and _same_term(wh, wl)), "the mirrored weight w[npts-i] equals the lower one (found %s; stores at %s)" % (wh, [str(ix) for ix, _ in st.get("w", [])]))
+    return res
 
 
 def _count_sign_test(test, name="npts"):
@@ -1263,15 +1811,21 @@ def cached_tables_readonly(chk, repo):
     from vcheck import effects
     from checks.C15 import analyse_attr_root
     eng = effects.Effects(repo, {})
+    # the tables of the two-dimensional integrator: whatever its _setup keeps on the object (the grids, or the rules they are made from)
+    kept2 = sorted({a for _, a, whole, _, _ in _attr_stores(repo.func(IU + "QGauss2._setup")) if whole} - {"self.nx", "self.ny"})
+    tables2 = ("self.xgrid", "self.ygrid", "self.wgrid") + tuple(a for a in kept2 if a not in ("self.xgrid", "self.ygrid", "self.wgrid"))
     for cls, tables, methods in (("QGauss", ("self.xxi", "self.wii"), ("integrate_func", "integrate_data", "integrate")),
-                                 ("QGauss2", ("self.xgrid", "self.ygrid", "self.wgrid"), ("integrate_func",))):
+                                 ("QGauss2", tables2, ("integrate_func",))):
         for m in methods:
             fi = repo.func(IU + "%s.%s" % (cls, m))
             for attr in tables:
                 s = analyse_attr_root(eng, fi, attr)
                 sites = [st for st in s.mut.get(attr, []) if st.kind in ("data", "meta")]
-                chk.ob("R17.5r", "%s.%s::%s-not-modified" % (cls, m, attr), not sites, sites[0].where() if sites else fi.where(),
-                       "the cached table %s is only read%s" % (attr, "" if not sites else ": " + sites[0].describe()))
+                # ... nor written through the attribute itself (self.T *= f, self.T[k] = v, self.T = other): the object sets its
+                # tables up once, an integration that leaves other ones behind changes what the next call returns
+                direct = [n for n, a, whole, _, _ in _attr_stores(fi) if a == attr] if cls == "QGauss2" else []
+                chk.ob("R17.5r", "%s.%s::%s-not-modified" % (cls, m, attr), not sites and not direct, sites[0].where() if sites else fi.where(direct[0].ast) if direct else fi.where(),
+                       "the cached table %s is only read%s" % (attr, ": " + sites[0].describe() if sites else ": `%s` stores into it" % norm(direct[0].ast)[:80] if direct else ""))
 
 
 # ---------------------------------------------------------------------------
@@ -2237,14 +2791,52 @@ class _NoTerm:
         return "no term: %s" % self.why
 
 
+class _Positional(ast.NodeTransformer):
+    """`f(p=a, q=b)` -> `f(a, b)` for calls of package functions whose signature is known, when the keywords name the leading
+    parameters and are written in parameter order (same values, same evaluation order): the symbolic evaluator forms the term of
+    an opaque callee from its positional arguments"""
+
+    def __init__(self, repo, fi):
+        self.repo, self.fi = repo, fi
+
+    def visit_Call(self, c):
+        self.generic_visit(c)
+        if not c.keywords:
+            return c
+        d = dotted_name(c.func)
+        q = self.repo.resolve_name(self.fi.module, d) if d else None
+        f = self.repo.funcs.get(q) if q else None
+        if f is None or f.cls is not None or any(p.startswith("*") for p in f.params) or f.node.args.kwonlyargs:
+            return c
+        b = _bind_call(f, c)
+        if b is None:
+            return c
+        lead = f.params[:len(b)]
+        written = [a for a in c.args] + [k.value for k in c.keywords]
+        if set(lead) != set(b) or [b[p] for p in lead] != written:
+            return c
+        return ast.copy_location(ast.Call(func=c.func, args=[b[p] for p in lead], keywords=[]), c)
+
+
+def _positional(repo, fi):
+    from vcheck.core import FuncInfo
+    node = _Positional(repo, fi).visit(_copy.deepcopy(fi.node))
+    ast.fix_missing_locations(node)
+    return FuncInfo(fi.qualname, fi.module, fi.cls, node, fi.path)
+
+
 def _sym_run(se, fi, env):
+    try:
+        fi = _positional(se.repo, fi)
+    except Exception:
+        pass
     try:
         return se.run(fi, env, {})
     except symx.Unsupported as e:
         return _NoTerm(str(e))
 
 
-def integrators(chk, repo):
+def integrators(chk, repo, tensor=(None, "")):
     SUM = sp.Function("SUM")
     xxi, wii, a, b, func = symx.symbols("xxi", "wii", "a", "b", "func")
     fi = repo.func(IU + "QGauss.integrate_func")
@@ -2276,7 +2868,11 @@ def integrators(chk, repo):
     xf1, xf2, yf1, yf2 = (b - a) / 2, (b + a) / 2, (d - c) / 2, (d + c) / 2
     ref = xf1 * yf1 * SUM(sp.Function("func")(xg * xf1 + xf2, yg * yf1 + yf2) * wg)
     eq = isinstance(r, sp.Basic) and symx.equal(r, ref)[0]
-    chk.ob("R17.6", "QGauss2.integrate_func::formula", None if isinstance(r, _NoTerm) else bool(eq), fi.where(), "tensor-product sum with both affine maps and the product prefactor (found %s)" % r)
+    if not eq and tensor[0]:
+        # the same statement decided on elements (R17.7 tensor-product-sum): the grids need not be kept as attributes for it
+        chk.ob("R17.6", "QGauss2.integrate_func::formula", True, fi.where(), "tensor-product sum with both affine maps and the product prefactor, established element by element: %s" % tensor[1])
+    else:
+        chk.ob("R17.6", "QGauss2.integrate_func::formula", None if isinstance(r, _NoTerm) else bool(eq), fi.where(), "tensor-product sum with both affine maps and the product prefactor (found %s)" % r)
 
 
 # ---------------------------------------------------------------------------
@@ -2826,25 +3422,48 @@ def _ix(k):
     return sp.Symbol("i%d" % k, integer=True)
 
 
-def shapes(chk, repo):
-    """symbolic shape and element inference for QGauss2._setup (E12): every array is followed as (shape, element at [i0, i1]);
-    the rule is stated on the results (grid and weight shapes, and which weight sits at which grid point), not on how they are built"""
-    fi = repo.func(IU + "QGauss2._setup")
-    chk.analysed_unit(fi.qualname)
-    nx, ny = sp.symbols("nx ny", positive=True, integer=True)
-    env = {"nx": nx, "ny": ny, "self.nx": nx, "self.ny": ny}
-    issues = []
-    rules_used = []          # (x function, w function, count) per gauleg call
+class _Sum:
+    """pref * (sum over all elements of arr)"""
 
-    def shift(a, n):
+    def __init__(self, arr, pref=1):
+        self.arr, self.pref = arr, sp.sympify(pref)
+
+    def __repr__(self):
+        return "%s * SUM%s(%s)" % (self.pref, self.arr.shape, self.arr.elem)
+
+
+class _Fn:
+    """a function handed in by the caller; applied to arrays it is evaluated element by element (the integrand of the property)"""
+
+    def __init__(self, name):
+        self.name = name
+
+
+class _ElemEval:
+    """shape / element interpreter for straight-line numpy code: every array is followed as (symbolic shape, element at [i0, i1] as
+    a term); scalars are terms, sequences tuples.  Statements understood: assignments (tuple targets, attributes of self), augmented
+    assignments, imports, doc strings, `if ...: raise` guards (the analysis is about the calls that are not rejected), return.
+    Calls of module-level helper functions are evaluated on their body.  Anything else: the value is unknown (None)."""
+
+    def __init__(self, repo, fi, env, issues, rules_used):
+        self.repo, self.fi, self.env = repo, fi, env
+        self.issues, self.rules_used = issues, rules_used
+        self.straight = True
+        self.depth = 0
+        self.np_local = set()
+        for x in walk_no_nested(fi.node):
+            if isinstance(x, ast.ImportFrom) and x.module == "numpy":
+                self.np_local |= {al.asname or al.name for al in x.names}
+
+    def shift(self, a, n):
         """re-index a for use as the trailing axes of an n-dimensional result; axes of length 1 do not depend on their index"""
         d = n - len(a.shape)
         sub = {_ix(k): (_ix(k + d) if a.shape[k] != 1 else 0) for k in range(len(a.shape))}
         return (1,) * d + a.shape, a.elem.xreplace(sub)
 
-    def bc(a, b, where):
+    def bc(self, a, b, where):
         n = max(len(a.shape), len(b.shape))
-        (sa, ea), (sb, eb) = shift(a, n), shift(b, n)
+        (sa, ea), (sb, eb) = self.shift(a, n), self.shift(b, n)
         out = []
         for x, y in zip(sa, sb):
             if x == y:
@@ -2854,49 +3473,46 @@ def shapes(chk, repo):
             elif y == 1:
                 out.append(x)
             else:
-                issues.append((where, "cannot broadcast axis lengths %s and %s (shapes %s and %s) unless nx == ny" % (x, y, sa, sb)))
+                self.issues.append((where, "cannot broadcast axis lengths %s and %s (shapes %s and %s) unless nx == ny" % (x, y, sa, sb)))
                 out.append(x)
         return tuple(out), ea, eb
 
-    def is_np(e, *names):
+    def is_np(self, e, *names):
         d = dotted_name(e.func)
         if d is None:
             return False
-        full = repo.resolve_name(fi.module, d)
+        full = self.repo.resolve_name(self.fi.module, d)
         last = full.rsplit(".", 1)[-1]
-        local_np = isinstance(e.func, ast.Name) and e.func.id in np_local
+        local_np = isinstance(e.func, ast.Name) and e.func.id in self.np_local
         return last in names and (full.startswith("numpy") or local_np)
 
-    np_local = set()
-    for x in walk_no_nested(fi.node):
-        if isinstance(x, ast.ImportFrom) and x.module == "numpy":
-            np_local |= {al.asname or al.name for al in x.names}
-
+    @staticmethod
     def is_newaxis(s):
         return (isinstance(s, ast.Constant) and s.value is None) or (dotted_name(s) or "").rsplit(".", 1)[-1] == "newaxis"
 
-    def dim(e):
-        v = ev(e)
+    def dim(self, e):
+        v = self.ev(e)
         return v if isinstance(v, sp.Basic) else None
 
-    def ev(e):
-        """_Arr, a scalar term, a tuple of values, or None (not understood)"""
+    def ev(self, e):
+        """_Arr, a scalar term, a tuple of values, _Sum, _Fn, or None (not understood)"""
+        env = self.env
         if isinstance(e, ast.Constant) and isinstance(e.value, (int, float)) and not isinstance(e.value, bool):
             return sp.nsimplify(e.value, rational=True)
         if isinstance(e, (ast.Name, ast.Attribute)):
-            return env.get(norm(e)) if not (isinstance(e, ast.Attribute) and e.attr == "T") else tr(ev(e.value))
-        if isinstance(e, ast.Tuple):
-            vs = tuple(ev(x) for x in e.elts)
+            return env.get(norm(e)) if not (isinstance(e, ast.Attribute) and e.attr == "T") else self.tr(self.ev(e.value))
+        if isinstance(e, (ast.Tuple, ast.List)):
+            vs = tuple(self.ev(x) for x in e.elts)
             return None if any(v is None for v in vs) else vs
         if isinstance(e, ast.UnaryOp) and isinstance(e.op, (ast.USub, ast.UAdd)):
-            v = ev(e.operand)
+            v = self.ev(e.operand)
             if isinstance(v, _Arr):
                 return _Arr(v.shape, -v.elem if isinstance(e.op, ast.USub) else v.elem)
-            return None if v is None or isinstance(v, tuple) else (-v if isinstance(e.op, ast.USub) else v)
+            return (-v if isinstance(e.op, ast.USub) else v) if isinstance(v, sp.Basic) else None
         if isinstance(e, ast.BinOp) and isinstance(e.op, (ast.Add, ast.Sub, ast.Mult, ast.Div)):
-            return arith(type(e.op), ev(e.left), ev(e.right), e)
+            return self.arith(type(e.op), self.ev(e.left), self.ev(e.right), e)
         if isinstance(e, ast.Subscript):
-            base = ev(e.value)
+            base = self.ev(e.value)
             if isinstance(base, tuple) and isinstance(const_value(e.slice), int) and -len(base) <= const_value(e.slice) < len(base):
                 return base[const_value(e.slice)]
             if not isinstance(base, _Arr):
@@ -2904,7 +3520,7 @@ def shapes(chk, repo):
             parts = list(e.slice.elts) if isinstance(e.slice, ast.Tuple) else [e.slice]
             shape, sub, k = [], {}, 0
             for s in parts:
-                if is_newaxis(s):
+                if self.is_newaxis(s):
                     shape.append(1)
                 elif isinstance(s, ast.Slice) and s.lower is None and s.upper is None and s.step is None and k < len(base.shape):
                     sub[_ix(k)] = _ix(len(shape))
@@ -2918,102 +3534,199 @@ def shapes(chk, repo):
                 k += 1
             return _Arr(shape, base.elem.xreplace(sub))
         if isinstance(e, ast.Call):
-            cnt = _rule_call_count(repo, fi, e)
-            if cnt is not None:
-                # gauleg, or a helper that hands out the rule for the count it is given (decided by _RuleEval.summary)
-                n = dim(cnt)
-                if n is None:
-                    return None
-                k = len(rules_used)
-                fx, fw = sp.Function("X%d" % k), sp.Function("W%d" % k)
-                rules_used.append((fx, fw, n))
-                return (_Arr((n,), fx(_ix(0))), _Arr((n,), fw(_ix(0))))
-            if is_np(e, "meshgrid") and len(e.args) == 2:
-                a, b = ev(e.args[0]), ev(e.args[1])
-                extra = [k.arg for k in e.keywords if k.arg != "indexing"]
-                if not (isinstance(a, _Arr) and isinstance(b, _Arr) and len(a.shape) == 1 and len(b.shape) == 1) or extra:
-                    return None
-                ind = kwarg(e, "indexing")
-                ind = "xy" if ind is None else const_value(ind)
-                if ind == "xy":
-                    return (_Arr((b.shape[0], a.shape[0]), a.elem.xreplace({_ix(0): _ix(1)})), _Arr((b.shape[0], a.shape[0]), b.elem))
-                if ind == "ij":
-                    return (_Arr((a.shape[0], b.shape[0]), a.elem), _Arr((a.shape[0], b.shape[0]), b.elem.xreplace({_ix(0): _ix(1)})))
-                return None
-            if is_np(e, "ones", "zeros") and e.args:
-                s = ev(e.args[0])
-                s = s if isinstance(s, tuple) else (s,)
-                if all(isinstance(x, sp.Basic) for x in s):
-                    return _Arr(s, 1 if call_name(e) == "ones" else 0)
-                return None
-            if is_np(e, "ones_like", "zeros_like") and e.args:
-                a = ev(e.args[0])
-                return _Arr(a.shape, 1 if call_name(e) == "ones_like" else 0) if isinstance(a, _Arr) else None
-            if is_np(e, "outer") and len(e.args) == 2 and not e.keywords:
-                a, b = ev(e.args[0]), ev(e.args[1])
-                if isinstance(a, _Arr) and isinstance(b, _Arr) and len(a.shape) == 1 and len(b.shape) == 1:
-                    return _Arr((a.shape[0], b.shape[0]), a.elem * b.elem.xreplace({_ix(0): _ix(1)}))
-                return None
-            if is_np(e, "multiply", "add", "subtract", "divide") and len(e.args) == 2 and not e.keywords:
-                op = {"multiply": ast.Mult, "add": ast.Add, "subtract": ast.Sub, "divide": ast.Div}[call_name(e)]
-                return arith(op, ev(e.args[0]), ev(e.args[1]), e)
-            if is_np(e, "transpose") and len(e.args) == 1 and not e.keywords:
-                return tr(ev(e.args[0]))
-            if is_np(e, "array", "asarray", "copy", "ascontiguousarray") and e.args:
-                return ev(e.args[0])
-            if isinstance(e.func, ast.Attribute) and e.func.attr in ("copy", "transpose") and not e.args and not e.keywords:
-                v = ev(e.func.value)
-                return tr(v) if e.func.attr == "transpose" else v
-            if isinstance(e.func, ast.Attribute) and e.func.attr == "reshape":
-                a = ev(e.func.value)
-                args = list(e.args[0].elts) if len(e.args) == 1 and isinstance(e.args[0], ast.Tuple) else list(e.args)
-                if isinstance(a, _Arr) and len(a.shape) == 1 and len(args) == 2:
-                    c = [const_value(x) for x in args]
-                    if c == [1, -1]:
-                        return _Arr((1, a.shape[0]), a.elem.xreplace({_ix(0): _ix(1)}))
-                    if c == [-1, 1]:
-                        return _Arr((a.shape[0], 1), a.elem)
-                return None
+            return self.call(e)
         return None
 
-    def tr(v):
+    def call(self, e):
+        ev = self.ev
+        cnt = _rule_call_count(self.repo, self.fi, e)
+        if cnt is not None:
+            # gauleg, or a helper that hands out the rule for the count it is given (decided by _RuleEval.summary)
+            n = self.dim(cnt)
+            if n is None:
+                return None
+            k = len(self.rules_used)
+            fx, fw = sp.Function("X%d" % k), sp.Function("W%d" % k)
+            self.rules_used.append((fx, fw, n))
+            return (_Arr((n,), fx(_ix(0))), _Arr((n,), fw(_ix(0))))
+        if isinstance(e.func, ast.Name) and isinstance(self.env.get(e.func.id), _Fn) and e.args and not e.keywords:
+            # the integrand at every element of its (broadcast) array arguments
+            args = [ev(a) for a in e.args]
+            if any(not isinstance(a, (_Arr, sp.Basic)) for a in args):
+                return None
+            arrs = [a if isinstance(a, _Arr) else _Arr((), a) for a in args]
+            n = max(len(a.shape) for a in arrs)
+            shape = None
+            elems = []
+            for a in arrs:
+                s_, el = self.shift(a, n)
+                if shape is None:
+                    shape = s_
+                elif tuple(shape) != tuple(s_):
+                    shape, _, _ = self.bc(_Arr(shape, 0), a, self.fi.where(e))
+                elems.append(el)
+            return _Arr(shape, sp.Function(self.env[e.func.id].name)(*elems))
+        if self.is_np(e, "meshgrid") and len(e.args) == 2:
+            a, b = ev(e.args[0]), ev(e.args[1])
+            extra = [k.arg for k in e.keywords if k.arg != "indexing"]
+            if not (isinstance(a, _Arr) and isinstance(b, _Arr) and len(a.shape) == 1 and len(b.shape) == 1) or extra:
+                return None
+            ind = kwarg(e, "indexing")
+            ind = "xy" if ind is None else const_value(ind)
+            if ind == "xy":
+                return (_Arr((b.shape[0], a.shape[0]), a.elem.xreplace({_ix(0): _ix(1)})), _Arr((b.shape[0], a.shape[0]), b.elem))
+            if ind == "ij":
+                return (_Arr((a.shape[0], b.shape[0]), a.elem), _Arr((a.shape[0], b.shape[0]), b.elem.xreplace({_ix(0): _ix(1)})))
+            return None
+        if self.is_np(e, "ones", "zeros") and e.args:
+            s = ev(e.args[0])
+            s = s if isinstance(s, tuple) else (s,)
+            if all(isinstance(x, sp.Basic) for x in s):
+                return _Arr(s, 1 if call_name(e) == "ones" else 0)
+            return None
+        if self.is_np(e, "ones_like", "zeros_like") and e.args:
+            a = ev(e.args[0])
+            return _Arr(a.shape, 1 if call_name(e) == "ones_like" else 0) if isinstance(a, _Arr) else None
+        if self.is_np(e, "outer") and len(e.args) == 2 and not e.keywords:
+            a, b = ev(e.args[0]), ev(e.args[1])
+            if isinstance(a, _Arr) and isinstance(b, _Arr) and len(a.shape) == 1 and len(b.shape) == 1:
+                return _Arr((a.shape[0], b.shape[0]), a.elem * b.elem.xreplace({_ix(0): _ix(1)}))
+            return None
+        if self.is_np(e, "multiply", "add", "subtract", "divide") and len(e.args) == 2 and not e.keywords:
+            op = {"multiply": ast.Mult, "add": ast.Add, "subtract": ast.Sub, "divide": ast.Div}[call_name(e)]
+            return self.arith(op, ev(e.args[0]), ev(e.args[1]), e)
+        if self.is_np(e, "transpose") and len(e.args) == 1 and not e.keywords:
+            return self.tr(ev(e.args[0]))
+        if self.is_np(e, "array", "asarray", "asanyarray", "copy", "ascontiguousarray") and e.args and not (e.keywords or len(e.args) > 1):
+            return ev(e.args[0])
+        if self.is_np(e, "sum") and len(e.args) == 1 and not e.keywords:
+            a = ev(e.args[0])
+            return _Sum(a) if isinstance(a, _Arr) else None
+        if isinstance(e.func, ast.Attribute) and e.func.attr == "sum" and not e.args and not e.keywords and not self.is_np(e, "sum"):
+            a = ev(e.func.value)
+            return _Sum(a) if isinstance(a, _Arr) else None
+        if isinstance(e.func, ast.Attribute) and e.func.attr in ("copy", "transpose") and not e.args and not e.keywords:
+            v = ev(e.func.value)
+            return self.tr(v) if e.func.attr == "transpose" else v
+        if isinstance(e.func, ast.Attribute) and e.func.attr == "reshape":
+            a = ev(e.func.value)
+            args = list(e.args[0].elts) if len(e.args) == 1 and isinstance(e.args[0], ast.Tuple) else list(e.args)
+            if isinstance(a, _Arr) and len(a.shape) == 1 and len(args) == 2:
+                c = [const_value(x) for x in args]
+                if c == [1, -1]:
+                    return _Arr((1, a.shape[0]), a.elem.xreplace({_ix(0): _ix(1)}))
+                if c == [-1, 1]:
+                    return _Arr((a.shape[0], 1), a.elem)
+            return None
+        # a module-level helper of the package: what its body returns for these arguments
+        d = dotted_name(e.func)
+        q = self.repo.resolve_name(self.fi.module, d) if d else None
+        f = self.repo.funcs.get(q) if q else None
+        method = False
+        if f is None or f.cls is not None:
+            # ... or a method of the object itself (it sees and may re-bind the object's attributes)
+            f = _self_callee(self.repo, self.fi, e)
+            method = f is not None
+        if f is not None and self.depth < 3:
+            b = _bind_call(f, e)
+            if b is None:
+                self.straight = self.straight and not method
+                return None
+            sub = _ElemEval(self.repo, f, {}, self.issues, self.rules_used)
+            sub.depth = self.depth + 1
+            static = any(isinstance(d_, ast.Name) and d_.id == "staticmethod" for d_ in f.node.decorator_list)
+            if method and not static:
+                me = f.params[0] if f.params else "self"
+                if me != "self":
+                    return None
+                sub.env.update({k: v for k, v in self.env.items() if k.startswith("self.")})
+            for p in f.params[(1 if method and not static else 0):]:
+                if p.startswith("*"):
+                    return None
+                v = ev(b[p]) if p in b else (sub.ev(f.defaults[p]) if p in f.defaults else None)
+                if v is not None:
+                    sub.env[p] = v
+            r = sub.run()
+            if method and not static:
+                for k in [k for k in self.env if k.startswith("self.")]:
+                    del self.env[k]
+                self.env.update({k: v for k, v in sub.env.items() if k.startswith("self.")})
+            if not sub.straight:
+                self.straight = self.straight and not (method and not static)
+                return None
+            return r
+        return None
+
+    def tr(self, v):
         if isinstance(v, _Arr) and len(v.shape) == 2:
             return _Arr((v.shape[1], v.shape[0]), v.elem.xreplace({_ix(0): _ix(1), _ix(1): _ix(0)}))
         return v if isinstance(v, _Arr) and len(v.shape) < 2 else None
 
-    def arith(op, a, b, node):
-        if a is None or b is None or isinstance(a, tuple) or isinstance(b, tuple):
+    def arith(self, op, a, b, node):
+        if a is None or b is None or isinstance(a, (tuple, _Fn)) or isinstance(b, (tuple, _Fn)):
             return None
         f = {ast.Add: lambda x, y: x + y, ast.Sub: lambda x, y: x - y, ast.Mult: lambda x, y: x * y, ast.Div: lambda x, y: x / y}[op]
+        if isinstance(a, _Sum) or isinstance(b, _Sum):
+            # a sum scaled by a scalar
+            if isinstance(a, _Sum) and isinstance(b, sp.Basic) and op in (ast.Mult, ast.Div):
+                return _Sum(a.arr, f(a.pref, b))
+            if isinstance(b, _Sum) and isinstance(a, sp.Basic) and op is ast.Mult:
+                return _Sum(b.arr, a * b.pref)
+            return None
         if not isinstance(a, _Arr) and not isinstance(b, _Arr):
             return f(a, b)
         a = a if isinstance(a, _Arr) else _Arr((), a)
         b = b if isinstance(b, _Arr) else _Arr((), b)
-        shape, ea, eb = bc(a, b, fi.where(node))
+        shape, ea, eb = self.bc(a, b, self.fi.where(node))
         return _Arr(shape, f(ea, eb))
 
-    def store(t, v):
+    def store(self, t, v):
         if isinstance(t, (ast.Tuple, ast.List)):
             for k, el in enumerate(t.elts):
-                store(el, v[k] if isinstance(v, tuple) and len(v) == len(t.elts) else None)
+                self.store(el, v[k] if isinstance(v, tuple) and len(v) == len(t.elts) else None)
         elif isinstance(t, (ast.Name, ast.Attribute)):
             if v is None:
-                env.pop(norm(t), None)
+                self.env.pop(norm(t), None)
             else:
-                env[norm(t)] = v
-
-    straight = True
-    for st in fi.node.body:
-        if isinstance(st, ast.Assign):
-            v = ev(st.value)
-            for t in st.targets:
-                store(t, v)
-        elif isinstance(st, ast.AugAssign) and isinstance(st.op, (ast.Add, ast.Sub, ast.Mult, ast.Div)):
-            store(st.target, arith(type(st.op), ev(st.target), ev(st.value), st))
-        elif isinstance(st, (ast.Import, ast.ImportFrom, ast.Pass)) or (isinstance(st, ast.Expr) and isinstance(st.value, ast.Constant)):
-            pass
+                self.env[norm(t)] = v
         else:
-            straight = False         # control flow or calls with effects the interpreter does not follow
+            self.straight = False        # an element store: the arrays followed here may no longer hold what was inferred
+
+    def run(self):
+        """executes the body; the value of the `return` that ends it (None: no value / not understood)"""
+        body = self.fi.node.body
+        for k, st in enumerate(body):
+            if isinstance(st, ast.Assign):
+                v = self.ev(st.value)
+                for t in st.targets:
+                    self.store(t, v)
+            elif isinstance(st, ast.AugAssign) and isinstance(st.op, (ast.Add, ast.Sub, ast.Mult, ast.Div)) and isinstance(st.target, (ast.Name, ast.Attribute)):
+                self.store(st.target, self.arith(type(st.op), self.ev(st.target), self.ev(st.value), st))
+            elif isinstance(st, (ast.Import, ast.ImportFrom, ast.Pass)) or (isinstance(st, ast.Expr) and isinstance(st.value, ast.Constant)):
+                pass
+            elif isinstance(st, ast.If) and not st.orelse and st.body and isinstance(st.body[-1], ast.Raise) and all(isinstance(x, (ast.Raise, ast.Expr, ast.Pass)) for x in st.body) \
+                    and not any(isinstance(x, ast.NamedExpr) for x in ast.walk(st.test)):
+                pass                     # an argument check: the calls it lets through go on below
+            elif isinstance(st, ast.Return) and k == len(body) - 1:
+                return self.ev(st.value) if st.value is not None else None
+            else:
+                self.straight = False    # control flow or calls with effects the interpreter does not follow
+        return None
+
+
+def shapes(chk, repo):
+    """symbolic shape and element inference for QGauss2 (E12): every array is followed as (shape, element at [i0, i1]);
+    the rules are stated on the results (grid and weight shapes, which weight sits at which grid point, and the element that
+    integrate_func sums), not on how they are built"""
+    fi = repo.func(IU + "QGauss2._setup")
+    chk.analysed_unit(fi.qualname)
+    nx, ny = sp.symbols("nx ny", positive=True, integer=True)
+    env = {"nx": nx, "ny": ny, "self.nx": nx, "self.ny": ny}
+    issues = []
+    rules_used = []          # (x function, w function, count) per gauleg call
+    it = _ElemEval(repo, fi, env, issues, rules_used)
+    it.run()
+    straight = it.straight
     chk.notes["QGauss2_shapes"] = {k: str(v) for k, v in env.items()}
     xg, yg, wg = env.get("self.xgrid"), env.get("self.ygrid"), env.get("self.wgrid")
     known = all(isinstance(v, _Arr) for v in (xg, yg, wg)) and straight
@@ -3039,3 +3752,44 @@ def shapes(chk, repo):
                     and {ex.args[0], ey.args[0]} == {_ix(0), _ix(1)}
         chk.ob("R17.7", "QGauss2._setup::tensor-product", okt, fi.where(), "weights are the tensor product: the weight at the grid point (x[a], y[b]) is wx[a] * wy[b] "
                "(grid points %s, %s; weight %s)" % (ex, ey, wg.elem))
+    ts = tensor_sum(repo, dict(env) if straight and not issues else None, list(rules_used), nx, ny)
+    f2 = repo.func(IU + "QGauss2.integrate_func")
+    chk.ob("R17.7", "QGauss2.integrate_func::tensor-product-sum", ts[0], f2.where(),
+           "with the attributes as _setup leaves them, integrate_func([a, b], [c, d], f) returns (b-a)/2 (d-c)/2 sum_pq wx[p] wy[q] f(x[p] mapped to [a, b], y[q] mapped to [c, d]): %s" % ts[1])
+    return ts
+
+
+def tensor_sum(repo, state, rules_used, nx, ny):
+    """'the two-dimensional integrator [returns] the tensor-product sum', stated on elements: with the object's attributes as _setup
+    leaves them, QGauss2.integrate_func(xrng=[a, b], yrng=[c, d], func) returns
+        (b-a)/2 (d-c)/2 sum_{p < nx, q < ny} wx[p] wy[q] func((b-a)/2 x[p] + (a+b)/2, (d-c)/2 y[q] + (c+d)/2)
+    with (x, wx) the nx-point and (y, wy) the ny-point rule on [-1, 1], whichever attributes hold the rules and wherever the affine
+    maps are applied.  -> (True / False / None, text)"""
+    fi = repo.func(IU + "QGauss2.integrate_func")
+    if state is None:
+        return None, "the attributes _setup leaves behind were not inferred"
+    params = [p for p in fi.params if not p.startswith("*")]
+    if params[:1] != ["self"] or len(params) != 4:
+        return None, "integrate_func does not take (xrng, yrng, func)"
+    a, b, c, d = sp.symbols("a b c d")
+    env = {k: v for k, v in state.items() if k.startswith("self.")}
+    env[params[1]], env[params[2]], env[params[3]] = (a, b), (c, d), _Fn("func")
+    issues = []
+    it = _ElemEval(repo, fi, env, issues, rules_used)
+    n_rules = len(rules_used)
+    r = it.run()
+    if not it.straight or not isinstance(r, _Sum) or issues or len(rules_used) != n_rules:
+        return None, "the value integrate_func returns was not inferred as a sum over an array (%r)" % (r,)
+    rx = [u for u in rules_used if u[2] == nx]
+    ry = [u for u in rules_used if u[2] == ny]
+    if len(rx) != 1 or len(ry) != 1 or rx[0] is ry[0]:
+        return None, "the nx-point and the ny-point rule were not identified"
+    (X, WX, _), (Y, WY, _) = rx[0], ry[0]
+    xf1, xf2, yf1, yf2 = (b - a) / 2, (b + a) / 2, (d - c) / 2, (d + c) / 2
+    got = r.pref * r.arr.elem
+    F = sp.Function("func")
+    for p, q, shape in ((_ix(0), _ix(1), (nx, ny)), (_ix(1), _ix(0), (ny, nx))):
+        want = xf1 * yf1 * WX(p) * WY(q) * F(X(p) * xf1 + xf2, Y(q) * yf1 + yf2)
+        if tuple(r.arr.shape) == shape and _zero(sp.expand(got - want)):
+            return True, "the summed element is %s over an array of shape %s" % (got, shape)
+    return False, "the summed element is %s over an array of shape %s" % (sp.simplify(got), tuple(r.arr.shape))
